@@ -2,6 +2,7 @@ import Proofs.NumLemmas
 import Proofs.SprintLemmas
 import Proofs.F64Mono
 import Proofs.NumZero
+import Proofs.NumRound
 /-!
 # C17 — numeric filters compute exact arithmetic and report impossible operations
 
@@ -304,6 +305,70 @@ example : Representable ((5 / 2 : Rat) * p10 0) ∧ Representable ((5 / 2 : Rat)
 theorem round_err (x : Rat) (p : Nat) :
     roundHalfUp x p - x ≤ (1 / 2) / p10 p ∧ -(1 / 2) / p10 p < roundHalfUp x p - x :=
   roundHalfUpE_err x (p10 p) (p10_pos p)
+
+/-! ### round for every float and every number of places
+
+`math.Floor(n*exp + 0.5) / exp` rounds half UP, toward +∞: `{{ -2.5 | round }}` is -2 and `{{ -3.5 | round }}` is -3 on
+the real engine (Go's `math.Round`, which rounds half away from zero, is not used). -/
+
+/-- `round` without an argument (and `round: 0`) on EVERY float64 `x` with `-2^52 ≤ x ≤ 2^52 - 1` other than
+0.49999999999999994 (`1/2 - 2^-54`): the result is `⌊x + 1/2⌋` — no `Representable` hypothesis on the intermediate
+`x + 1/2`, which Go may round. -/
+theorem round_half_up (x : Rat) (hx : Representable x) (h1 : ((-(2 ^ 52) : Int) : Rat) ≤ x)
+    (h2 : x ≤ ((2 ^ 52 - 1 : Int) : Rat)) (hne : x ≠ 1 / 2 - pow2 (-54)) :
+    Num.round [fv x, .fn none] = ret (.flt .f64 ((x + 1 / 2).floor : Rat)) ∧
+    Num.round [fv x, .fn (some (.ok (.int .int 0)))] = ret (.flt .f64 ((x + 1 / 2).floor : Rat)) := by
+  have h := roundTo_half_up x hx h1 h2 hne
+  constructor <;> simpa [Num.round, Arg.call] using h
+
+example : Representable (-5 / 2 : Rat) ∧ ((-5 / 2 : Rat) + 1 / 2).floor = -2 ∧ ((-7 / 2 : Rat) + 1 / 2).floor = -3
+    ∧ ((5 / 2 : Rat) + 1 / 2).floor = 3 ∧ ((-1 / 2 : Rat) + 1 / 2).floor = 0 ∧ (-5 / 2 : Rat) ≠ 1 / 2 - pow2 (-54) := by
+  decide +kernel
+
+/-- the two families the statement excludes are real deviations from "rounds half up" (model = real engine):
+`{{ 0.49999999999999994 | round }}` is 1, not 0 (`x + 0.5` rounds up to 1.0), and above 2^52 an odd whole number is
+not returned unchanged: `{{ 4503599627370497.0 | round }}` is 4503599627370498 (`x + 0.5` is a tie, rounded to even) -/
+theorem round_half_up_exceptions :
+    okFlt (Num.round [fv (1 / 2 - pow2 (-54)), .fn none]) = some 1 ∧ ((1 / 2 - pow2 (-54) : Rat) + 1 / 2).floor = 0 ∧
+    okFlt (Num.round [fv 4503599627370497, .fn none]) = some 4503599627370498 := by decide +kernel
+
+/-- `round: p` for ANY `p` whose scale `math.Pow10(p)` is a non-zero float64 `e` (−323 ≤ p ≤ 308; for p < 0 and p > 22
+`e` is the float nearest to 10^p, not 10^p): the product, the sum and the quotient are each correctly rounded,
+`RN(⌊RN(RN(x·e) + 1/2)⌋ / e)`. `round_spec` is the case where all three are exact. -/
+theorem round_stepwise (x : Rat) (p : Int) (e a b c : Rat) (hpow : Num.pow10Go p = .ok e) (he : e ≠ 0)
+    (h1 : roundF64 (x * e) = some a) (hz : a = 0 → ¬ x < 0) (h2 : roundF64 (a + 1 / 2) = some b)
+    (h3 : roundF64 ((b.floor : Rat) / e) = some c) :
+    Num.round [fv x, .fn (some (.ok (.int .int p)))] = ret (.flt .f64 c) := by
+  have h := roundTo_steps x p e a b c hpow he h1 hz h2 h3
+  simpa [Num.round, Arg.call] using h
+
+/-- the hypotheses of `round_stepwise` at p = −2 and p = 23: the scale is the float64 nearest to 1/100, resp. 10^23,
+and differs from it -/
+example :
+    (match Num.pow10Go (-2) with
+      | .ok e => decide (roundF64 (mkRat 1 100) = some e ∧ e ≠ mkRat 1 100 ∧ e ≠ 0)
+      | _ => false) = true ∧
+    (match Num.pow10Go 23 with
+      | .ok e => decide (roundF64 ((10 ^ 23 : Nat) : Rat) = some e ∧ e ≠ ((10 ^ 23 : Nat) : Rat) ∧ e ≠ 0)
+      | _ => false) = true := by decide +kernel
+
+/-- outside −323 ≤ p ≤ 308 `math.Pow10` is 0 or +Inf and the real filter yields NaN for every receiver
+(`{{ 1234.5678 | round: 309 }}` and `{{ 0 | round: 400 }}` print `NaN`): outside the model -/
+theorem round_places_out_of_range (x : Rat) (p : Int) (hp : p < -323 ∨ 308 < p) :
+    Num.round [fv x, .fn (some (.ok (.int .int p)))]
+      = .unmodelled "math.Pow10: +Inf or 0 scale (the filter yields NaN)" := by
+  simp [Num.round, Arg.call, Num.roundTo, pow10Go_out_of_range p hp, Res.bind]
+
+/-- evaluated on the model, equal to what the real engine prints for 1234.5678: negative places round to tens and
+hundreds (`round: -1` = 1230, `round: -2` = 1200, `round: -4` = 0), places beyond the fractional digits return the
+receiver (`round: 23`, `round: 300`), `round: 308` overflows (`+Inf` in Go, unmodelled here), `round: -323` is 0 -/
+example :
+    let x : Rat := mkRat 5429502395555911 4398046511104
+    let r (p : Int) := Num.round [fv x, .fn (some (.ok (.int .int p)))]
+    Representable x ∧ okFlt (r (-1)) = some 1230 ∧ okFlt (r (-2)) = some 1200 ∧ okFlt (r (-4)) = some 0
+      ∧ okFlt (r 23) = some x ∧ okFlt (r 300) = some x ∧ isUnmodelled (r 308) = true ∧ okFlt (r (-323)) = some 0
+      ∧ isUnmodelled (r (-324)) = true := by
+  decide +kernel
 
 /-! ## identities (all under `Representable`) -/
 
